@@ -309,6 +309,7 @@ def oracle_c11(line, case, stats, allc, lines):
 # ------------------------------------------------------------------------------------------------
 def oracle_c14(line, case, stats, allc, lines):
     """every reported range, taken from the original input, is exactly that construct's bytes; monotone, disjoint"""
+    if line.startswith('L3 '): return oracle_c14_l3(line, case, stats)
     errs = []
     data = input_bytes(line)
     last_end = 0; last_tok = None; last_text_end = None
@@ -324,7 +325,7 @@ def oracle_c14(line, case, stats, allc, lines):
             if not (0 <= a <= b <= len(data)): errs.append('range %d..%d outside the document (%d bytes)' % (a, b, len(data))); continue
             if kind == 'T':
                 txt = bytes.fromhex(parts[3])
-                if raw != txt and all(x < 128 for x in raw): errs.append('text chunk %d..%d: input bytes %r != text %r' % (a, b, raw[:40], txt[:40]))
+                if raw != txt and all(x < 128 for x in raw) and all(x < 128 for x in txt): errs.append('text chunk %d..%d: input bytes %r != text %r' % (a, b, raw[:40], txt[:40]))
             elif kind in 'SE':
                 name = bytes.fromhex(parts[2])
                 want = (b'<' if kind == 'S' else b'</') + name
@@ -746,3 +747,22 @@ def oracle_c05(line, case, stats, allc=None, lines=None):
         return ['handler invocation sequence differs from the reference scope model at position %d: observed %s, expected %s (observed %d events, expected %d)'
                 % (n, got[n:n+3], exp2[n:n+3], len(got), len(exp2))]
     return []
+
+# ------------------------------------------------------------------------------------------------
+# C13 (and the text-chunk clause of C14): verdicts computed inside the harness (harness/src/l3.rs) against encoding_rs'
+# whole-buffer decode / encode; this only collects them
+def _l3_stats(case, stats):
+    for x in case.get('extra', []):
+        if x.startswith('X c13-stats '):
+            stats['l3_cases'] = stats.get('l3_cases', 0) + 1
+            for kvp in x.split(' ')[2:]:
+                k, _, v = kvp.partition('=')
+                if k == 'enc': stats.setdefault('encodings', set()).add(v)
+                elif v.isdigit(): stats['l3_' + k] = stats.get('l3_' + k, 0) + int(v)
+def oracle_c13(line, case, stats, allc=None, lines=None):
+    if not line.startswith('L3 '): return []
+    _l3_stats(case, stats)
+    if isinstance(stats.get('encodings'), set): stats['encodings_seen'] = len(stats['encodings'])
+    return [x[len('X c13-bad '):] for x in case.get('extra', []) if x.startswith('X c13-bad ')][:3]
+def oracle_c14_l3(line, case, stats):
+    return [x[len('X c14-bad '):] for x in case.get('extra', []) if x.startswith('X c14-bad ')][:3]
